@@ -38,6 +38,23 @@ def rule(res, dist, lanes, tap, forced, prev_lanes):
 LANESETS = ["".join("1" if m >> l & 1 else "0" for l in range(5)) for m in range(32)]
 
 
+_prev_cache = {}
+
+
+def prev_event(note, tick=1000):
+    """a real predecessor (a NoteEvent as the track builder makes them, taken from a parsed one-note section): whatever attribute of
+    it the function reads is there"""
+    key = (note, tick)
+    if key not in _prev_cache:
+        from chartparse.instrument import Difficulty, Instrument, InstrumentTrack
+        from . import C01
+        be = C01.build_bpm_events(192, [(0, 120000)])
+        lanes = [l for l, b in enumerate(note.value) if b] if isinstance(note.value, tuple) and any(note.value) else [7]
+        tr = InstrumentTrack.from_chart_lines(Instrument.GUITAR, Difficulty.EXPERT, [f"  {tick} = N {l} 0" for l in lanes], be)
+        _prev_cache[key] = tr.note_events[0]
+    return _prev_cache[key]
+
+
 def direct(ctx, out):
     from types import SimpleNamespace
 
@@ -62,7 +79,7 @@ def direct(ctx, out):
                 if pair_frac < 1 and rng.random() > pair_frac:
                     continue
                 for tap, forced in ((0, 0), (0, 1), (1, 0), (1, 1)):
-                    prev = SimpleNamespace(tick=1000, note=note_of[pl])
+                    prev = prev_event(note_of[pl])
                     try:
                         i = NoteEvent._compute_hopo_state(res, 1000 + dist, note_of[cl], bool(tap), bool(forced), prev).value
                     except Exception as e:  # noqa: BLE001
@@ -122,7 +139,7 @@ def replay(ctx, data):
         from chartparse.instrument import Note, NoteEvent
 
         mk = lambda ls: Note(tuple(int(c) for c in ls))
-        prev = None if data["prev"] is None else SimpleNamespace(tick=data.get("prev_tick", 1000), note=mk(data["prev"]))
+        prev = None if data["prev"] is None else prev_event(mk(data["prev"]), data.get("prev_tick", 1000))
         base = data.get("prev_tick", 1000) if data["prev"] is not None else 5
         try:
             i = NoteEvent._compute_hopo_state(data["res"], base + (data["dist"] or 0), mk(data["cur"]), bool(data["tap"]), bool(data["forced"]), prev).value
